@@ -11,7 +11,7 @@
 (*  - abscissae without a point, both sort flags on one abscissa.          *)
 (* Used by C04 (decode), C05 (encode), C07 (membership), C17 (clear_h).    *)
 (***************************************************************************)
-EXTENDS JEncoding, Json, IOUtils, TLC, SequencesExt
+EXTENDS JEncoding, CubeRoot, Json, IOUtils, TLC, SequencesExt
 
 Thorough == IOEnv.VERIF_TIER = "thorough"
 OutDir == IOEnv.OUT
@@ -73,23 +73,6 @@ NoRoot2(x, k) == IF k = 0 THEN <<>> ELSE
 (* corrected by a 9th root of unity.  Every point produced is certified    *)
 (* on the curve by the judges (and by the ASSUMEs below).                  *)
 (***************************************************************************)
-Nine == <<9>>
-M1 == Div(Sub(Q, One), Nine)
-M2 == Div(Sub(Mul(Q, Q), One), Nine)
-TOf(m) == IF Rem(Add(One, m), Three) = Zero THEN Div(Add(One, m), Three) ELSE Div(Add(One, Mul(Two, m)), Three)
-(* a cubic non-residue and the element of order 9 it yields *)
-RECURSIVE NonCube1(_)
-NonCube1(n) == IF FqPow(n, Mul(Three, M1)) # One THEN n ELSE NonCube1(FqAdd(n, One))
-Eta1 == FqPow(NonCube1(Two), M1)
-RECURSIVE NonCube2(_)
-NonCube2(n) == IF F2Pow(n, Mul(Three, M2)) # F2One THEN n ELSE NonCube2(F2Add(n, F2One))
-Eta2 == F2Pow(NonCube2(<<One, One>>), M2)
-RECURSIVE Fix1(_,_,_), Fix2(_,_,_)
-Fix1(c, r, j) == IF FqMul(r, FqSqr(r)) = c THEN <<TRUE, r>> ELSE IF j = 9 THEN <<FALSE, Zero>> ELSE Fix1(c, FqMul(r, Eta1), j + 1)
-Fix2(c, r, j) == IF F2Mul(r, F2Sqr(r)) = c THEN <<TRUE, r>> ELSE IF j = 9 THEN <<FALSE, F2Zero>> ELSE Fix2(c, F2Mul(r, Eta2), j + 1)
-Cbrt1(c) == IF c = Zero THEN <<TRUE, Zero>> ELSE IF FqPow(c, Mul(Three, M1)) # One THEN <<FALSE, Zero>> ELSE Fix1(c, FqPow(c, TOf(M1)), 0)
-Cbrt2(c) == IF c = F2Zero THEN <<TRUE, F2Zero>> ELSE IF F2Pow(c, Mul(Three, M2)) # F2One THEN <<FALSE, F2Zero>> ELSE Fix2(c, F2Pow(c, TOf(M2)), 0)
-
 HalfQ == Div(Sub(Q, One), Two)
 (* first k ordinates y = start + dir*d (d = 0, 1, ...) for which a point exists; dir = +1 / -1 *)
 RECURSIVE YScan1(_,_,_,_)
